@@ -561,6 +561,39 @@ func init() {
 	})
 }
 
+// c17RawGeom: a multi-part geometry over an arbitrary flat array (rings not closed, 1..4 parts of
+// 0..5 points each), the kind a caller builds with the New*Flat constructors.
+func (r *Rng) c17RawGeom() geom.T {
+	l := xyzmLayouts[r.Intn(4)]
+	stride := l.Stride()
+	var flat []float64
+	var ends []int
+	for k := 1 + r.Intn(4); k > 0; k-- {
+		n := r.Intn(6)
+		if r.chance(2, 3) {
+			n = 3 + r.Intn(3)
+		}
+		flat = append(flat, r.c17Flat(stride, n, 9)...)
+		ends = append(ends, len(flat))
+	}
+	switch r.Intn(4) {
+	case 0:
+		return geom.NewPolygonFlat(l, flat, ends)
+	case 1:
+		return geom.NewMultiLineStringFlat(l, flat, ends)
+	case 2:
+		// two polygons: split the rings
+		h := (len(ends) + 1) / 2
+		return geom.NewMultiPolygonFlat(l, flat, [][]int{ends[:h], ends[h:]})
+	default:
+		endss := make([][]int, len(ends))
+		for i, e := range ends {
+			endss[i] = []int{e}
+		}
+		return geom.NewMultiPolygonFlat(l, flat, endss)
+	}
+}
+
 type c17Compare struct{}
 
 func (c17Compare) IsEquals(a, b geom.Coord) bool { return a[0] == b[0] && a[1] == b[1] }
@@ -698,6 +731,10 @@ func genC17(r *Rng, e *Emitter, n int) {
 			// a mix of different functions on one shared geometry
 			t := r.wktTree(2, xyzmLayouts[r.Intn(4)])
 			g := t.build()
+			if r.chance(1, 3) {
+				// raw flat geometries: rings need not be closed, parts of any length, several rings/polygons
+				g = r.c17RawGeom()
+			}
 			var calls []*c17Case
 			var args [][]any
 			for _, c := range geomCases {
